@@ -159,7 +159,7 @@ func analyseClient(c *Ctx, typeName string, serial bool) *clientInfo {
 
 // isField: v was loaded from field idx of the client receiver.
 func (ci *clientInfo) isField(v AV, idx int) bool {
-	want := "*c." + ci.st.Field(idx).Name()
+	want := "*" + ci.Do.Params[0].Name() + "." + ci.st.Field(idx).Name()
 	switch x := v.(type) {
 	case ARef:
 		return x.key == want
